@@ -97,6 +97,8 @@ def run_probe_case(ctx, case, mode):
     world = grammar.build_world(case["world"])
     hist, probe = case["ops"], case["probe"]
     route = op_route(world, probe) if probe["t"] != "new" else "new"
+    if mode == "c04" and probe.get("k", {}).get("_inplace") is True:
+        route += "!inplace"  # (buckets keep the in-place and the copy-on-write form of a helper apart)
 
     def verdict(res, fault_label, fault):
         if mode == "c04" and res["outcome"] != "raise":
